@@ -39,6 +39,9 @@ fn main() {
         // hidden sub-command: JIT legs of the `total` contract, run in a child so that an abort is observable
         std::process::exit(c_total::child_main(&args));
     }
+    if contract == "__guard_child" {
+        std::process::exit(c_jit::guard_child(&args));
+    }
     if contract == "replay" {
         let txt = std::fs::read_to_string(&args[2]).expect("replay file");
         let v: serde_json::Value = serde_json::from_str(&txt).expect("json");
@@ -99,6 +102,7 @@ pub fn run(contract: &str, thorough: bool, seed: u64) -> Report {
         "alloc_small_n" => c_alloc::alloc_small_n(thorough, seed),
         "jit_point" => c_jit::jit_point(thorough, seed),
         "jit_bulk" => c_jit::jit_bulk(thorough, seed),
+        "jit_bulk_guard" => c_jit::jit_bulk_guard(thorough),
         "jit_interval" => c_jit::jit_interval(thorough),
         "jit_interval_valid" => c_jit::jit_interval_valid(thorough),
         "jit_grad" => c_jit::jit_grad(thorough),
@@ -129,6 +133,7 @@ fn replay(v: &serde_json::Value) -> i32 {
         "alloc_cex" | "alloc_small_n" => c_alloc::replay(v),
         "flatten" => c_flatten::replay(v),
         "interp_point" | "interp_bulk" | "interp_interval" => c_interp::replay(v),
+        "jit_bulk_guard" => c_jit::guard_replay(v),
         "jit_point" | "jit_bulk" | "jit_interval" | "jit_interval_valid" | "jit_grad" => c_jit::replay(v),
         "trace_vm" | "jit_trace" => c_trace::replay(v),
         "simplify_sem" => c_simplify::replay(v),
